@@ -86,8 +86,9 @@ def generate(rng, tier):
         cert = []
         for _ in range(rng.choice([0, 1, 1, 2])):
             cert.append('cn:' + hx(variants(rng, expected).encode() if rng.random() < 0.8 else expected.encode()))
+        ipterm = any(ab.startswith('ip:') for _, ab in terms)
         for _ in range(rng.randrange(0, 5)):
-            kind = rng.choice(['dns', 'dns', 'dns', 'ip', 'uri', 'rid', 'other', 'other'])
+            kind = rng.choice(['dns', 'dns', 'dns', 'ip', 'uri', 'rid', 'other', 'other'] + (['ip'] * 6 if ipterm else []))
             if kind == 'dns':
                 v = variants(rng, expected) if rng.random() < 0.75 else (ipaddr if rng.random() < 0.5 else expected)
                 b = v.encode()
